@@ -160,6 +160,19 @@ def selftest(pid, ctx):
                 ctx.selftest.append("SELFTEST-SURVIVOR property=%s seeded=%s result=%s" % (pid, name, r["result"]))
     if seeds:
         out["seeded_changes"] = seeds
+    # behaviour-preserving refactorings written by independent sub-agents: every property's rules must stay silent on each
+    rd = os.path.join(VERIF, "refactors")
+    if os.path.isdir(rd):
+        from concurrent.futures import ThreadPoolExecutor
+        names = [n for n in sorted(os.listdir(rd)) if os.path.exists(os.path.join(rd, n, "patch.diff"))]
+        with ThreadPoolExecutor(max_workers=10) as ex:
+            futs = [ex.submit(mut.run_one, pid, {"id": n, "patch": os.path.join(rd, n, "patch.diff"), "equivalent": True, "expect": []}, 700 + i)
+                    for i, n in enumerate(names)]
+            rs = [f.result() for f in futs]
+        out["refactorings"] = [{"refactoring": r["id"], "result": "silent" if r["result"] == "killed" else r["result"], "fired": r.get("fired")} for r in rs]
+        for r in rs:
+            if r["result"] != "killed":
+                ctx.selftest.append("SELFTEST-FALSE-ALARM property=%s refactoring=%s result=%s fired=%s" % (pid, r["id"], r["result"], r.get("fired")))
     return out
 
 
